@@ -24,6 +24,7 @@ type actRec struct {
 }
 
 type topup struct {
+	atMs      int64
 	id        string
 	amt       int64
 	invokeSeq int64
@@ -105,6 +106,8 @@ type tableMon struct {
 	anyNotAtomicAction bool
 	lastTurnKey        string
 	turnAt             int64
+	lastExtAtMs        int64
+	lastExtD           int64
 	extensions         map[string]extRec
 	turnStale          int64
 	lastDeadlineSeen   int64
@@ -514,8 +517,10 @@ func (m *tableMon) checkDealtIn(h *handRec, prev *handRec) {
 				}
 			}
 			if !found || a != p.IsParticipated {
+				// read later than the engine computed the flags: a membership / chip operation may have
+				// landed in between, so this is only a probe
 				smOK = false
-				c.Viol("C05", "C05.sm_active_mismatch", nil, "hand %d: seat manager says active=%v (found %v) for %s but the table dealt-in flag is %v", h.k, a, found, p.PlayerID, p.IsParticipated)
+				c.Probe("seat_manager_flags_moved_on_since_open")
 				break
 			}
 		}
@@ -1093,7 +1098,7 @@ func (m *tableMon) checkDeadline(h *handRec, t *pt.Table) {
 	case ext.total > 0 && st.CurrentActionEndAt > want && st.CurrentActionEndAt <= want+ext.total:
 		// extended (every prefix sum of the extensions requested during this turn is acceptable)
 		m.turnOK = true
-	case st.CurrentActionEndAt == m.turnStale:
+	case st.CurrentActionEndAt == m.turnStale || (m.lastExtAtMs == c.NowMs() && st.CurrentActionEndAt == m.turnStale+m.lastExtD):
 		// the deadline of the previous turn, re-published by a concurrent event before the engine wrote the new one
 		c.Probe("request_published_before_deadline_written")
 	case st.CurrentActionEndAt != 0:
@@ -1106,6 +1111,7 @@ func (m *tableMon) checkDeadline(h *handRec, t *pt.Table) {
 type extRec struct{ total int64 }
 
 func (m *tableMon) extensionInvoke(turnKey string, d int64) {
+	m.lastExtAtMs, m.lastExtD = m.c.NowMs(), d
 	if m.extensions == nil {
 		m.extensions = map[string]extRec{}
 	}
@@ -1336,8 +1342,15 @@ func (m *tableMon) onPausing(t *pt.Table) {
 	}
 	c.Judged("C08.pause_condition")
 	if !(st.BlindState.Level == -1 || alive < t.Meta.TableMinPlayerCount) {
-		// the blind level may have been changed back while the pause was being published
-		if len(m.blinds) == 0 {
+		// the blind level may have been changed back while the pause was being published; a top-up
+		// invoked at the very instant of the decision may fall on either side of it
+		sameInstantTopup := false
+		for _, tu := range m.topups {
+			if tu.atMs == c.NowMs() {
+				sameInstantTopup = true
+			}
+		}
+		if len(m.blinds) == 0 && !sameInstantTopup {
 			c.Viol("C08", "C08.paused_without_cause", nil, "table paused after hand %d although the level is %d and %d players have chips (minimum %d)", st.GameCount, st.BlindState.Level, alive, t.Meta.TableMinPlayerCount)
 		}
 	} else {
@@ -1412,5 +1425,13 @@ func (m *tableMon) slowness(ms int64) {
 	}
 	if m.cur != nil && m.cur.phase != nil && !m.cur.phase.closed {
 		m.cur.phase.allowMs += ms
+	}
+}
+
+// externalSetup: a set-up call from outside restarts the gate (it supersedes the pending one), so the
+// bounded-liveness clock of C08 ("without any further external call") restarts as well.
+func (m *tableMon) externalSetup() {
+	if m.waitingNext {
+		m.lastSettledMs = m.c.NowMs() - int64(m.w.cfg.interval)*1000
 	}
 }
